@@ -352,7 +352,7 @@ def check_one(spec, dkey: str, mode: str, nrows: int) -> Dict[str, Any]:
     consts = {LIM: L, OFF: O}
     base = [Row(z3.BoolVal(True), {"a": z3.Int("a%d" % i), "b": z3.Int("b%d" % i)}) for i in range(nrows)]
     s = z3.Solver()
-    s.set("timeout", 20000)
+    s.set("timeout", 120000)
     s.add(L >= 0, O >= 0)
     try:
         got = eval_plan(plan, base, consts, gd)
